@@ -42,6 +42,7 @@ class Acc:
         # lean: the check enumerates cases that are distinct by construction (token sequences, product elements;
         # shards partition the space), so nodes and edges are counted instead of remembered by 64-bit key.
         self.lean = lean
+        self.breaker = False  # armed by the shard workers only
         self.evaluations = 0
         self.traces = 0
         # Counters for cases that are distinct by construction (an enumerated token sequence / product element is
@@ -142,13 +143,24 @@ class Acc:
         witness: JSON-able dict with at least `case` (replayable), `observed`, `expected`."""
         key = json.dumps(sig, sort_keys=True, default=str)
         self.by_sig[key] += 1
+        self.counters["violating_cases"] += 1
         if size is None:
             size = len(json.dumps(witness.get("case"), default=str))
         lst = self.viol.setdefault(key, [])
         if len(lst) < MAX_WITNESS_PER_SIG or size < lst[-1][0]:
-            lst.append((size, json.dumps(witness, sort_keys=True, default=str)))
+            blob = json.dumps(witness, sort_keys=True, default=str)
+            if len(blob) > 30000:
+                # keep the replayable case, shorten what was observed / expected (some breakages return huge results)
+                w = dict(witness)
+                for k in list(w):
+                    if k != "case":
+                        w[k] = repr(w[k])[:2000] + " ...(truncated)"
+                blob = json.dumps(w, sort_keys=True, default=str)
+            lst.append((size, blob))
             lst.sort()
             del lst[MAX_WITNESS_PER_SIG:]
+        if self.breaker and self.counters["violating_cases"] > MAX_VIOLATIONS_PER_SHARD:
+            raise TooManyViolations()
 
     # -- merge -----------------------------------------------------------------------
     def merge(self, o):
@@ -224,6 +236,14 @@ class ShardTimeout(BaseException):
     pass
 
 
+class TooManyViolations(BaseException):
+    """Circuit breaker: a tree that breaks a property on (almost) every case is reported after the first few
+    thousand cases of a shard; going on only costs time (some breakages make every further call slower)."""
+
+
+MAX_VIOLATIONS_PER_SHARD = 300
+
+
 def _shard_alarm(signum, frame):
     raise ShardTimeout()
 
@@ -232,6 +252,7 @@ def _worker(args):
     modname, idx, shard, tier, seed = args
     mod = importlib.import_module(modname)
     acc = Acc(seed, lean=getattr(mod, "LEAN", False))
+    acc.breaker = True
     t0 = time.time()
     limit = int(os.environ.get("VERIF_SHARD_TIMEOUT", "3600"))
     own_watchdog = getattr(mod, "OWN_WATCHDOG", False)
@@ -244,6 +265,8 @@ def _worker(args):
         finally:
             if not own_watchdog:
                 signal.alarm(0)
+    except TooManyViolations:
+        acc.cap(f"shard_stopped_after_{MAX_VIOLATIONS_PER_SHARD}_violating_cases")
     except ShardTimeout:
         # no verdict: the exploration of this shard is incomplete (reported as a cap, exhaustive=false)
         acc.cap(f"shard_timeout_{limit}s:{shard!r}"[:120])
